@@ -12,7 +12,10 @@ frames exited in which order during the sweep); (b) history invariants: an actio
 is re-raised by Skedder.run, a keyboard interrupt is not; the taskers sent the final abort
 are exactly those still scheduled (not aborted earlier, generator not killed by the fault),
 each once, yielding aborted, with no control afterwards; no scheduled framer nor any of its
-auxiliaries is left with entered frames; (c) C06 bracketing invariants on the whole history.
+auxiliaries is left with entered frames; (c) C06 bracketing invariants on the whole history;
+(d) the same Skedder object is run a second time (after the fault-free end and after a keyboard
+interrupt between ticks): the second run satisfies (b), (c), at most one control per tasker per
+tick and at most one abort per tasker.
 """
 from vp.core.acc import Acc
 from vp.core.hyp import campaign, Outcome, Budget
@@ -66,6 +69,47 @@ def eval_case(prog, crash):
     return out, r
 
 
+def eval_rerun(prog, crash, ticks2):
+    """The same Skedder run a second time (after a fault-free end or a keyboard interrupt of the first run): the second
+    run is a run like any other - every tasker is sent at most one control per tick and, however it ends, every tasker
+    still scheduled gets exactly one abort, nothing afterwards, and leaves no frame entered."""
+    from vp.flo.run import run_real
+    from vp.flo import ast as A
+    text, _ = A.render(prog)
+    tr = run_real(prog, crash=crash, text=text, rerun=ticks2)
+    t2 = tr.get("rerun")
+    fails = []
+    if not t2:
+        return fails, False
+    for sig, what in I.inv_c03(prog, t2, None):
+        fails.append(("rerun-" + sig, "second run of the same Skedder (first run crash=%r): %s\n%s" % (crash, what, text)))
+    for sig, what in I.inv_c06(prog, t2, crash=False):
+        fails.append(("rerun-" + sig, "second run of the same Skedder (first run crash=%r): %s\n%s" % (crash, what, text)))
+    # at most one control per tasker per tick, at most one abort per tasker in the whole run
+    aborts = {}
+    for tick, rec in enumerate(t2["ticks"] + [t2["final"]]):
+        per = {}
+        for e in rec["events"]:
+            if e[0] == "send":
+                if e[2] == "abort":
+                    aborts[e[1]] = aborts.get(e[1], 0) + 1
+                else:
+                    per[e[1]] = per.get(e[1], 0) + 1
+        for name, n in per.items():
+            if n > 1:
+                fails.append(("rerun-controls-per-tick", "second run of the same Skedder: tasker %s was sent %d controls in tick %d\n%s" % (name, n, tick, text)))
+                break
+    for name, n in aborts.items():
+        if n > 1:
+            fails.append(("rerun-aborts", "second run of the same Skedder: tasker %s was sent %d aborts\n%s" % (name, n, text)))
+    seen, out = set(), []
+    for sig, what in fails:
+        if sig not in seen:
+            seen.add(sig)
+            out.append((sig, what))
+    return out, True
+
+
 def plan(tier):
     n, count, limit = (8, 14, 40) if tier == "quick" else (16, 200, 0)
     return [{"part": "rand", "i": i, "n": n, "count": count, "limit": limit} for i in range(n)]
@@ -93,6 +137,14 @@ def work(shard, seed, tier):
                      classes=["crash-between-ticks" if c.get("between") else "crash-in-action-" + c["exc"]])
             for sig, what in f2:
                 acc.fail(sig, what, {"prog": prog, "crash": c})
+        # second run of the same Skedder: after the fault-free run and after one keyboard interrupt between ticks
+        rr = [None] + [c for c in pts if c.get("between")][:1]
+        for c in rr:
+            f3, ran = eval_rerun(prog, c, prog.get("ticks", 5))
+            if ran:
+                acc.case(key=(prog_key(prog), "rerun", str(c)), nontrivial=True, classes=["second-run-of-the-same-skedder"])
+            for sig, what in f3:
+                acc.fail(sig, what, {"prog": prog, "crash": c, "rerun": prog.get("ticks", 5)})
         st = r["real"]["final"]["snap"]["framers"]
         nt = len({v["status"] for v in st.values()}) >= 2
         return Outcome(allf, nontrivial=nt, classes=["fault-free", "crash-points=%s" % ("0" if not npts else ("1-20" if npts <= 20 else ">20"))],
@@ -103,6 +155,8 @@ def work(shard, seed, tier):
 
 
 def replay(case):
+    if case.get("rerun"):
+        return eval_rerun(case["prog"], case.get("crash"), case["rerun"])[0]
     fails, r = eval_case(case["prog"], case.get("crash"))
     return fails
 
@@ -110,7 +164,7 @@ def replay(case):
 RULE = ("Hypothesis-generated small multi-framer programs with stop/abort bids; for each, every (tick, k-th action) crash point of its fault-free trace "
         "(all ticks before the last) x {exception raised by the action, keyboard interrupt} plus a keyboard interrupt between every two ticks "
         "(quick: <= 40 points per program by seed-chosen stride; thorough: all); oracle = reference interpreter under the same crash plan + abort-sweep and "
-        "frames-left-entered invariants + C06 bracketing. non-trivial = a case with a crash point, or a fault-free run ending with framers in different "
+        "frames-left-entered invariants + C06 bracketing; plus a second run of the same Skedder object checked by the invariants. non-trivial = a case with a crash point, or a fault-free run ending with framers in different "
         "states; distinct = distinct (program, crash point)")
 ASSUMPTIONS = ["a fault inside the final abort sweep itself is not injected (the statement covers faults that end the run)",
                "the framer whose action raised (and any framer whose generator the exception passed through) is no longer scheduled and is not swept; its frames may stay entered",
